@@ -211,7 +211,13 @@ impl Story {
         // Report any errors that occured during evaluation.
         // This may either have been StoryExceptions that were thrown
         // and caught during evaluation, or directly added with AddError.
-        if self.get_state().has_error() || self.get_state().has_warning() {
+        // Not at a pause of a time-limited continue: the state may still be
+        // rewound to the last newline, which would bring back what was
+        // reported here (and re-run what raised the rest), so everything
+        // waits until the line is complete.
+        if !self.async_continue_active
+            && (self.get_state().has_error() || self.get_state().has_warning())
+        {
             match &self.on_error {
                 Some(on_err) => {
                     if self.get_state().has_error() {
